@@ -397,4 +397,8 @@ example : (run t3 [.event 35]).log.drop 8 =
 -- a level-1 event passes every check and reaches 1, 2, 3, 4 in that order
 example : ((run t3 [.event 3]).log.filter (·.2 == "on_event")).map (·.1) = [1, 2, 3, 4] := by decide
 
+/-- **C09.reload_waits_for_the_lock** — what reload.rs must say NOW: the reloadable wrapper never POLLS its lock; a callback that
+arrives while `Handle::reload` / `modify` holds the write lock waits and is delivered to the (new) value, it is not skipped -/
+theorem reload_waits_for_the_lock : TM.Gen.Forwarding.reloadLocksBlocking = true := by decide
+
 end C09
